@@ -72,7 +72,9 @@ AddCmt ==
        /\ (place = 2 => out[pos].k # "format")
        /\ (place \in {2, 3} => ~HasEd("sent", pos) /\ ~HasEd("garb", pos))
        \* at most one comment found inside a statement (trailing or in-continuation)
-       /\ (place \in {2, 3, 4, 5} => ~\E j \in 1..Len(ed) : ed[j].t = "cmt" /\ ed[j].pos = pos /\ ed[j].a \in {2, 3, 4, 5})
+       /\ (place \in {3, 4, 5} => ~\E j \in 1..Len(ed) : ed[j].t = "cmt" /\ ed[j].pos = pos /\ ed[j].a \in {2, 3, 4, 5})
+       \* ... except a trailing comment at the end of a statement whose first line already carries one (place 5, added earlier)
+       /\ (place = 2 => ~\E j \in 1..Len(ed) : ed[j].t = "cmt" /\ ed[j].pos = pos /\ ed[j].a \in {2, 3, 4})
        /\ ed' = Append(ed, E("cmt", pos, place, c))
 
 AddCpp ==
@@ -218,7 +220,8 @@ GarbPos == IF \E j \in 1..Len(ed) : ed[j].t = "garb" THEN ed[CHOOSE j \in 1..Len
 
 \* the quick configurations replay a deterministic 1/DumpMod sample of the exhaustive space
 RECURSIVE EdHash(_)
-EdHash(j) == IF j = 0 THEN 0 ELSE (ed[j].pos * 7 + ed[j].a * 3 + ed[j].b * 5 + j * 13 + EdHash(j - 1)) % 1000003
+\* (a polynomial hash: with a linear one the sample of two-edit behaviours kept only the pairs with one fixed sum of their parameters)
+EdHash(j) == IF j = 0 THEN 0 ELSE (EdHash(j - 1) * 131 + ed[j].pos * 7 + ed[j].a * 31 + ed[j].b * 53 + 13) % 1000003
 Selected == \/ DumpMod = 1 \/ ed = <<>>
             \/ (EdHash(Len(ed)) + Len(ed) + Len(out) * 11 + nname + nlab) % DumpMod = 0
 PDump == (pd /\ Selected) => PrintT(<<"BEH", ToJson([out |-> out, needs08 |-> needs08, ed |-> ed,
